@@ -99,6 +99,18 @@ class SXF(SX):
         return SX.finish_countdown(self, fn, info, st, c0, inits)
 
 
+def loop_values(sx, lins):
+    """a layout quantity that is the exit value of a loop the executor only over-approximates (a digit loop counting down, a
+    helper with its own loop form) is unknown: the comparison with the ISO layout is then not a verdict"""
+    for x in lins:
+        if isinstance(x, Lin):
+            for sy in x.t:
+                d = sx.describe_opq(sy) if isinstance(sy, str) else None
+                if d is not None and d[0] in ('h', 'hE', 'hp', 'j', 'jE'):
+                    raise AnalysisBroken('print_f: a length of the emitted layout is the value a loop of %s leaves in %r, which '
+                                         'the layout extraction does not summarise' % (d[1], d[2:]))
+
+
 def from_value_param(fn, v, argno, depth=0, seen=None):
     """v is the float parameter argno, possibly narrowed / widened / selected against constants"""
     seen = seen if seen is not None else set()
@@ -281,6 +293,8 @@ def float_layout(sx, rets, f, T, wp, fam, default_prec=6):
             want = {'sp_l': zero, 'z_pad': zero, 'sp_r': zero}
             want['sp_r' if L else ('z_pad' if Z else 'sp_l')] = pad
             ok = all(ctx.eq(got[k], want[k]) for k in want)
+            if not ok:
+                loop_values(sx, list(got.values()) + [total])
             flags = '-' if L else ('0' if Z else '')
             out.append(('padding with flags [%s]' % flags, ok, None if ok else
                         'case {%s}: spaces before %r, zeros after the sign %r, spaces after %r; ISO C requires %r, %r, %r '
@@ -317,10 +331,14 @@ def float_layout(sx, rets, f, T, wp, fam, default_prec=6):
                     end = lay['body'][0] + body_len
                     nfrac = end - dots[0][2] - 1
                     ok = ctx.eq(nfrac + zl, peff) and ctx.st.cons.entails_le(0, nfrac)
+                    if not ok:
+                        loop_values(sx, [nfrac, zl])
                     out.append((key, ok, None if ok else 'case {%s}: %r digits follow the point in the buffer and %r zeros are '
                                 'added; ISO C requires %r in total' % (', '.join(ctx.desc), nfrac, zl, peff)))
                 else:
                     ok = ctx.eq(zl, 0)
+                    if not ok:
+                        loop_values(sx, [zl])
                     out.append((key, ok, None if ok else 'case {%s}: zeros are appended although no point is printed'
                                 % ', '.join(ctx.desc)))
             return out
